@@ -20,29 +20,40 @@ RULE = (
     "Pipelines as in C02 (shared operator table incl. self-contained multicast forms, conforming cold/hot/sync logged "
     "sources, single non-raising subscriber with a generated policy for Observable-valued elements; three generators: "
     "free pipelines, pipelines with an Observable-producing operator, pipelines with an early-ending operator) plus a "
-    "dedicated family on_error_resume_next/catch/concat over source *factories*. For each pipeline a reference run "
-    "records the set E of clock values at which any scheduled action ran and the number of top-level probe callbacks; "
-    "then the pipeline is re-run once per dispose point: for every t in E u {t-1, t+1} (t >= 0, up to one tick past "
-    "the natural end, at most 14 instants) in three queue positions - 'first' (the dispose action is enqueued for t "
-    "before anything is built, so it precedes every source message and timer of instant t), 'mid' (enqueued right "
-    "after subscribe() returned: after the work queued during subscription, before work queued later), 'last' (the "
-    "action re-enqueues itself while other uncancelled work for the same instant is pending) - and from inside the "
-    "probe's k-th callback for every k. Oracle, evaluated per run after dispose() returned (seq = global event "
-    "counter): (a) the probe records no notification; (b) lab.cb_log has no entry with a later seq; (c) snapshot "
-    "taken synchronously after dispose(): no pipeline-opened source subscription is open; (d) at the end of the run "
-    "none is open and every one was closed by the first instant at which no inner subscriber is live; (e) no source "
-    "subscription is opened with a later seq. Exception to (b)-(e), as the property grants: while an inner "
-    "subscriber of a group/window observable is still live, callbacks and source subscriptions owned by the root or "
-    "by operators at or upstream of the last group/window operator may continue. Subscriptions an inner probe opened "
-    "itself on a raw source element are the subscriber's own and are not judged. Callbacks running during dispose() "
-    "have smaller seq and are allowed. Non-trivial run: at the moment of dispose the top probe had no terminal and "
-    ">=1 pipeline-opened source subscription was open; a case is non-trivial if it has such a run. Distinct = "
-    "distinct case JSON. Classes count runs (not cases) per position and kind."
+    "family of creation functions that run user code (on_error_resume_next over source factories, concat of defer "
+    "factories, concat_with_iterable/catch_with_iterable/from_iterable over lazily pulled logged generators, for_in, "
+    "generate, using) followed by 0-2 operators. For each case a reference run records the set E of clock values at "
+    "which any scheduled action ran and the number of top-level probe callbacks; then the case is re-run once per "
+    "dispose point: for every t in E u {t-1, t+1} (t >= 0, up to one tick past the natural end, at most 14 instants) "
+    "in three queue positions - 'first' (the dispose action is enqueued for t before anything is built, so it "
+    "precedes every source message and timer of instant t), 'mid' (enqueued right after subscribe() returned: after "
+    "the work queued during subscription, before work queued later), 'last' (the action re-enqueues itself while "
+    "other uncancelled work for the same instant is pending) - and from inside the probe's k-th callback for every "
+    "k < 10. Oracle per run, relative to the moment dispose() returned (seq = global event counter): (a) the probe "
+    "records no notification; (b) lab.cb_log has no entry with a later seq; (c) snapshot taken synchronously after "
+    "dispose(): no pipeline-opened source subscription is open; (d) at the end of the run none is open and every one "
+    "was closed by the first instant at which no inner subscriber is live; (e) no source subscription is opened with "
+    "a later seq. Exceptions: [live inner] while a subscriber of a group/window observable is still live, callbacks "
+    "and source subscriptions owned by the root or by operators at or upstream of the last group/window operator may "
+    "continue (as the property grants); subscriptions an inner probe opened itself on a raw source element are the "
+    "subscriber's own and are not judged; callbacks running during dispose() have smaller seq. [in flight] when "
+    "dispose() is called from inside a subscriber callback, handler activations already on the Python stack may run "
+    "to their end: an event of (b)/(e) in the same synchronous stack is excused if no *new* notification delivery "
+    "(AutoDetachObserver.on_* activation absent from the stack at dispose) encloses it ('tail'), or if the new "
+    "delivery comes out of a harness source emitting inside its own subscribe() ('sync-emission': no handle exists "
+    "yet); a subscription excused this way, or one whose subscribe() was in progress at dispose, must be closed "
+    "before the stack unwinds; pulls of a lazily consumed iterable ('.next' slots) are never excused. "
+    "[subscribe_on] upstream of subscribe_on the documented behaviour is unsubscription by a scheduled action: there "
+    "(b),(c),(e) are required by the end of the dispose instant instead of synchronously. "
+    "Non-trivial run: at the moment of dispose the top probe had no terminal and >=1 pipeline-opened source "
+    "subscription was open; a case is non-trivial if it has such a run. Distinct = distinct case JSON. Classes count "
+    "runs (labels run:<position>:<kind>[+exemption...]) as well as cases."
 )
 ASSUMPTIONS = [
     "single thread, virtual time (TestScheduler); the thread-based schedulers are C30-C35's business",
-    "clause (e) reads 'every source subscription opened for it is closed at that instant' as also forbidding a subscription that is opened on the subscriber's behalf after that instant",
-    "a dispose requested from a callback that runs inside subscribe() can only be carried out when subscribe() returns (there is no handle before); notifications in between are not judged",
+    "clause (e) reads 'every source subscription opened for it is closed at that instant' as also forbidding a subscription that is opened on the subscriber's behalf after that instant (outside the in-flight stack)",
+    "in-flight exemption: the tail of operator handlers that were already executing when dispose() was called from a callback may still call their own user function / subscribe a source once (observed for expand, group_by(_until), group_join/window_toggle/join, window_when, buffer_when); a new notification delivery or a later scheduled action may not",
+    "a dispose requested from a callback that runs inside the top-level subscribe() can only be carried out when subscribe() returns (there is no handle before); notifications in between are not judged",
     "runs that hit the same-instant spin guard, the work budget or the stack-depth guard are discarded and counted",
 ]
 
@@ -102,9 +113,9 @@ def run_variant(case, variant, make):
 
 def _culprit(pc, owner):
     if owner is None:
-        return ",".join(sorted(set(op_names(pc)))[:4]) or "root:" + pc["root"]["f"]
+        return ",".join(sorted(set(op_names(pc)))[:4]) or pc["root"]["f"]
     if owner < 0:
-        return "root:" + pc["root"]["f"]
+        return pc["root"]["f"] if pc["root"]["f"] != "single" else "source"
     return pc["ops"][owner][0]
 
 
@@ -169,7 +180,7 @@ def judge(case, variant, lab, p, pc, G):
             oi = -1 if opname == pc["root"]["f"] else slot_index(slot)  # root-form callbacks (defer factory, ...) are upstream of everything
             if not shareable(oi, tick) and not continuation(("cb", idx), seq, strict=cbname == "next") and not deferred_unsub(oi, tick):
                 f = fail("callback-after-dispose", oi, f"user callback {slot}{args} ran at t={tick} seq={seq}")
-                return label, (f"callback-after-dispose|{opname}.{cbname}", f[1])
+                return label, (f"callback-after-dispose|{opname}", f[1])
     # (c)
     for s, i in p.open_after or ():
         if p.live_after and any(not q.raw for q in p.live_after) and G is not None and s.owner <= G:
@@ -337,8 +348,8 @@ def _factory_cases():
 def checks(tier):
     q = tier == "quick"
     return [
-        Check("pipelines", _run, strategy=cases(4 if q else 6), examples={"quick": 320, "thorough": 16 * 2000}, shards={"quick": 8, "thorough": 16}),
-        Check("inners", _run, strategy=cases_inner(4 if q else 6), examples={"quick": 320, "thorough": 16 * 2000}, shards={"quick": 8, "thorough": 16}),
-        Check("enders", _run, strategy=cases_forced(3 if q else 5), examples={"quick": 200, "thorough": 16 * 1000}, shards={"quick": 8, "thorough": 16}),
+        Check("pipelines", _run, strategy=cases(4 if q else 6), examples={"quick": 320, "thorough": 16 * 1000}, shards={"quick": 8, "thorough": 16}),
+        Check("inners", _run, strategy=cases_inner(4 if q else 6), examples={"quick": 320, "thorough": 16 * 1000}, shards={"quick": 8, "thorough": 16}),
+        Check("enders", _run, strategy=cases_forced(3 if q else 5), examples={"quick": 200, "thorough": 16 * 500}, shards={"quick": 8, "thorough": 16}),
         Check("factories", _run_factories, strategy=_factory_cases(), examples={"quick": 200, "thorough": 16 * 1000}, shards={"quick": 8, "thorough": 16}),
     ]
